@@ -335,6 +335,10 @@ func PublishContext[T any](bus *EventBus, ctx context.Context, event T) {
 				if !filterFunc(event) {
 					continue // Skip this handler as event doesn't match filter
 				}
+			} else if !callFilterReflect(h.filter, event) {
+				// The predicate was declared for the event's concrete type but the
+				// publish call was instantiated with a wider one (e.g. Publish[any])
+				continue
 			}
 		}
 
@@ -513,6 +517,21 @@ func callHandlerWithContext[T any](h *internalHandler, ctx context.Context, even
 			}
 		}
 	}
+}
+
+// callFilterReflect evaluates a filter predicate whose parameter type is not the
+// static type of the publish call. Filters that cannot take the event accept it.
+func callFilterReflect(filter any, event any) bool {
+	fv := reflect.ValueOf(filter)
+	ev := reflect.ValueOf(event)
+	if fv.Kind() != reflect.Func || !ev.IsValid() {
+		return true
+	}
+	ft := fv.Type()
+	if ft.NumIn() != 1 || ft.NumOut() != 1 || ft.Out(0).Kind() != reflect.Bool || !ev.Type().AssignableTo(ft.In(0)) {
+		return true
+	}
+	return fv.Call([]reflect.Value{ev})[0].Bool()
 }
 
 // Subscribe Options
